@@ -337,6 +337,16 @@ static void run_dist(int metric, int n, int th, int c, int fam, int m2kind, matr
 }
 
 /* ------------------------------------------------------------------ condensed distances */
+/* the value oracles of the condensed kernels presuppose that the documented index map is a bijection for this n: if two pairs
+ * share a slot, two workers store different values into it and what is read back depends on the schedule (not replayable).
+ * The map itself is judged deterministically by run_index(); here a broken map is reported under the same key and the
+ * schedule-dependent comparisons are skipped. */
+static int index_map_ok(int n) {
+  long N = (long)n * (n - 1) / 2; if (n < 2) return 1;
+  unsigned char *hit = calloc((size_t)N + 1, 1); int ok = 1;
+  for (int i = 0; i < n && ok; i++) for (int j = i + 1; j < n; j++) { size_t a = square_to_condensed_index((size_t)i, (size_t)j, (size_t)n); if (a >= (size_t)N || hit[a]++) { ok = 0; break; } }
+  free(hit); return ok;
+}
 typedef void (*cd_fn)(matrix *, dvector *, size_t);
 static cd_fn CD_OF[4] = {EuclideanDistanceCondensed, SquaredEuclideanDistanceCondensed, ManhattanDistanceCondensed, CosineDistanceCondensed};
 static const char *CD_NAME[4] = {"EuclideanDistanceCondensed", "SquaredEuclideanDistanceCondensed", "ManhattanDistanceCondensed", "CosineDistanceCondensed"};
@@ -344,6 +354,10 @@ static void run_cond(int metric, int n, int th, int c, int fam, dvector **out_fr
   const char *fn = CD_NAME[metric], *cl = cls(n, th); char key[160];
   matrix *m = gen(fam, n, c), *sq; dvector *cd, *cd2, *cd1; initDVector(&cd); initDVector(&cd2); initDVector(&cd1); initMatrix(&sq);
   long N = (long)n * (n - 1) / 2; if (n == 0) N = 0;
+  if (!index_map_ok(n)) {
+    JUDGE(0, "index-bijection|square_to_condensed_index", "n=%d: the map is not a bijection onto 0..%ld; %s not judged on it", n, N - 1, fn);
+    vx_outcome(300 + (uint64_t)metric); DelMatrix(&m); DelMatrix(&sq); DelDVector(&cd); DelDVector(&cd2); DelDVector(&cd1); if (out_free) *out_free = hv_new(0, NULL); return;
+  }
   g_created = 0; race_reset();
   CD_OF[metric](m, cd, (size_t)th); vx_transition(1);
   race_check_dv(fn, cl, cd, NULL);
@@ -415,6 +429,7 @@ static void run_algo(int which, int n, int th, int c, int fam) {
   static const char *NAMES[5] = {"KMeans(MaxDis-init)", "MDC", "KMeansppCenters", "MaxDis", "MaxDis_Fast"};
   const char *fn = NAMES[which], *cl = cls(n, th); char key[160];
   matrix *m = gen(fam, n, c); uint64_t h = 500 + (uint64_t)which;
+  if (which == 4 && !index_map_ok(n)) { JUDGE(0, "index-bijection|square_to_condensed_index", "n=%d: the map is not a bijection; MaxDis_Fast not judged on it", n); vx_outcome(h); DelMatrix(&m); return; }
   snprintf(g_tick, sizeof g_tick, "nonterm|%s|%s", fn, cl); vx_tick_reset();   /* legitimate runs draw < 500 numbers here */
   if (which == 0) {
     int k = n < 3 ? n : 3; uivector *l1, *lt; matrix *c1, *ct; initUIVector(&l1); initUIVector(&lt); initMatrix(&c1); initMatrix(&ct);
